@@ -243,6 +243,7 @@ class Run(Oracles):
         w.observe("op")
 
     def start_actor(self, op: dict) -> None:
+        op = dict(op, pool=self.pm_of(op).idx)       # the pool is fixed when the call is issued (pools may be added later)
         coro = getattr(self, "actor_" + op["op"])(op)
         if op.get("place", "eager") == "eager":
             # the caller awaits the blocking method in place: its synchronous prefix runs right now (Python 3.12 eager start)
